@@ -57,7 +57,7 @@ Theorem C03_equivocation_flags : forall E v m thr k w s h0,
   m_status m = Same -> m_novote m = false ->
   m_round m = round_of v -> m_idx m = v_idx v ->
   (m_type m = V.Certificate -> certp_ok E = true) ->
-  m_sig m = true -> m_stake m = Some (thr, k) -> cred_ok v m = true ->
+  m_sig m = true -> m_stake m = Some (thr, k) -> cred_ok E v m = true ->
   get_wrapper (v_ws v) (m_round m, m_idx m) = Some w ->
   wsta w k (m_type m) = Some s ->
   aget (vs_addrs s) (m_sender m) = Some (mkAS h0 false) ->
@@ -100,37 +100,44 @@ Theorem C03_commit_verifies_partial : forall E Hp o v' ev c r i h cp hp cc (view
 Proof. exact commit_verifies_noncert. Qed.
 Print Assumptions C03_commit_verifies_partial.
 
-(* the full clause - every commit's precommit set verifies - is false for the
-   code as it is: in a certificate round the precommit quorum is latched
-   (voteOver) and a later double vote removes weight before the certificate
-   quorum triggers the commit *)
-Definition C03_commit_verifies_full : Prop := commit_verifies_full.
+(* the full clause - every commit's precommit set verifies - is false for a
+   tree without the repair fixes/C03_latched_quorum_decayed.diff
+   (fix_latch E = false; the harness reads the flag off the implementation):
+   in a certificate round the precommit quorum is latched (voteOver) and a later
+   double vote removes weight before the certificate quorum triggers the commit *)
+Definition C03_commit_verifies_full : Prop := commit_verifies_full false.
 
 Theorem C03_commit_verifies_refuted : ~ C03_commit_verifies_full.
 Proof. exact commit_verifies_refuted. Qed.
 Print Assumptions C03_commit_verifies_refuted.
 
 (* 5. credentials.  The theorems above speak of the credential check the voter
-   calls (verifySortitionFn).  With Server.verifySortition in that place the
-   check also accepts an invalid VRF credential when the message is older than
-   the server's own (round, index); it is sound only for fresh messages. *)
-Definition C03_credentials_full : Prop := credentials_full.
+   calls (verifySortitionFn).  With Server.verifySortition in that place and
+   without the repair fixes/C03_stale_credential_accepted.diff (fix_stale E =
+   false) the check also accepts an invalid VRF credential when the message is
+   older than the server's own (round, index); it is sound for fresh messages,
+   and for all messages with the repair. *)
+Definition C03_credentials_full : Prop := credentials_full false.
 
 Theorem C03_credentials_refuted : ~ C03_credentials_full.
 Proof. exact credentials_refuted. Qed.
 Print Assumptions C03_credentials_refuted.
 
-Theorem C03_credentials_hold_outside : forall v m b,
-  m_cred m = CredVrf b -> cred_ok v m = true ->
+Theorem C03_credentials_hold_outside : forall E v m b,
+  m_cred m = CredVrf b -> cred_ok E v m = true ->
   fst (v_srv v) <= m_round m -> snd (v_srv v) <= m_idx m -> b = true.
 Proof. exact fresh_credential_sound. Qed.
 Print Assumptions C03_credentials_hold_outside.
+
+Theorem C03_credentials_with_repair : credentials_full true.
+Proof. exact credentials_repaired. Qed.
+Print Assumptions C03_credentials_with_repair.
 
 (* ---- non-vacuity ------------------------------------------------------------------ *)
 (* a history in which prevotes reach the quorum exactly (2 of threshold 4), the
    voter precommits, precommits reach the quorum and the block is committed *)
 Definition nv_env : env :=
-  mkEnv 0 [(7, 1, V.Prevote, (1, 4, Chamber)); (7, 1, V.Precommit, (1, 4, Chamber))] true false.
+  mkEnv 0 [(7, 1, V.Prevote, (1, 4, Chamber)); (7, 1, V.Precommit, (1, 4, Chamber))] true false false false.
 Definition nv_msg (t : vtype) (h a n : N) : op :=
   Msg (mkMsg Same t 7 1 h 1 a true n false (Some (4, Chamber)) (CredGiven true)).
 Definition nv_hist : list op :=
@@ -166,12 +173,23 @@ Print Assumptions C03_nonvacuous_equivocator.
    (5, 1); one prevote with an invalid VRF credential and 100 claimed seats makes
    the voter precommit *)
 Example C03_stale_credential_witness :
-  let E := mkEnv 0 [(5, 1, V.Precommit, (1, 4, Chamber))] true false in
+  let E := mkEnv 0 [(5, 1, V.Precommit, (1, 4, Chamber))] true false false false in
   snd (fst (step E (run_state E [Cache 1 true; Srv 5 2; Ctx 5 1 2 false None])
                  (Msg (mkMsg Same V.Prevote 5 1 1 1 1 true 100 false (Some (4, Chamber)) (CredVrf false)))))
   = [ESend V.Precommit 5 1 1 1 1].
 Proof. vm_compute. reflexivity. Qed.
 Print Assumptions C03_stale_credential_witness.
+
+(* with the two repairs the two witnesses no longer escalate *)
+Example C03_repaired_witnesses :
+  let E1 := mkEnv 0 [] true false true false in
+  let E2 := mkEnv 0 [(5, 1, V.Precommit, (1, 4, Chamber))] true false false true in
+  snd (fst (step E1 (run_state E1 w_hist) w_last)) = []
+  /\ step E2 (run_state E2 [Cache 1 true; Srv 5 2; Ctx 5 1 2 false None])
+           (Msg (mkMsg Same V.Prevote 5 1 1 1 1 true 100 false (Some (4, Chamber)) (CredVrf false)))
+      = (run_state E2 [Cache 1 true; Srv 5 2; Ctx 5 1 2 false None], [], ret_ok).
+Proof. split; vm_compute; reflexivity. Qed.
+Print Assumptions C03_repaired_witnesses.
 
 (* the quorum function at the boundary values used in the protocol tables *)
 Example C03_quorum_values :
